@@ -89,7 +89,8 @@ def run(module, cfg=None, *, workers=16, env=None, timeout=1800, simulate=None,
             cmd += ["-continue"]
         cmd += [module]
         e = dict(os.environ)
-        e.setdefault("JAVA_TOOL_OPTIONS", "-Xmx" + heap)
+        # (TLC creates a tlc-<n> directory in java.io.tmpdir on every run: keep it inside the scratch directory)
+        e.setdefault("JAVA_TOOL_OPTIONS", "-Xmx" + heap + " -Djava.io.tmpdir=" + d)
         if env:
             e.update({k: str(v) for k, v in env.items()})
         try:
